@@ -54,6 +54,10 @@ def run(rep, ctx):
     with rep.guard("C14.getters"):
         getter_semantics(rep, ctx.model, T, "C14.getters")
     rep.floor("C14.getters", 232)
+    rep.rule("C14.readonly", "the built-in tables are never modified at run time (what the analyzer looks up is what the source file tabulates)")
+    with rep.guard("C14.readonly"):
+        from .. import symrules as _SRr
+        _SRr.tables_read_only(rep, ctx.model, "C14.readonly")
     rep.rule("C14.memo", "the dataset that keys every table lookup is dropped by reset(), which set_system() calls (no labels of a previous structure)")
     with rep.guard("C14.memo"):
         from .. import symrules as _SR
